@@ -1,4 +1,137 @@
-(** C06 placeholder while the proofs are being written *)
-From GH Require Import Base.Prelude Model.Store Model.StoreCrash.
-Theorem C06_placeholder : True. Proof. exact I. Qed.
-Print Assumptions C06_placeholder.
+(** C06 — Store survives restart and crash without loss or dangling head/tail pointers.
+
+    Setting as in Props/C04.v: [s := run c (st0 b) ops] is the state after ANY history
+    (Appends, DeleteRanges with failing handlers, Syncs, restarts).  The model records every
+    datastore write — each direct Put/Delete and each batch commit, taken as atomic — in the ghost
+    field [wlog s].  [image b (wlog s) k] is the datastore content after the first [k] entries
+    (a crash right after the k-th write, k = 0 .. length, i.e. at EVERY write boundary of every
+    operation, also in the middle of a DeleteRange), [reopen b (wlog s) k] a fresh Store started
+    on that image (Model/StoreCrash.v; Start drops a pointer whose header is missing).
+    [start] is total in the model: the reopened Store always starts.
+
+    History of this property: the proof found that a DeleteRange over a store whose Head had been
+    lifted by headers still sitting in the write batch persisted a Head pointer past the headers
+    that were only pending; a crash then left Head = 8, Tail = 2 with 4, 5 missing
+    (batch 3, [1;2;3] [6;7;8] [4] [5], DeleteRange(1,2)).  Repaired in the code (DeleteRange's
+    Sync flushes the pending batch first); the model follows, and the theorems below hold without
+    any precondition on the history. *)
+From Coq Require Import NArith List Bool.
+From stdpp Require Import gmap.
+From GH Require Import Base.Prelude Model.Store Model.StoreSpec Model.StoreCrash Oracle.StoreCase.
+From GH Require Import Proofs.StoreP Proofs.StoreMainP Proofs.StoreC04P Proofs.StoreCrash4P.
+Import ListNotations.
+Open Scope N_scope.
+
+(** After a clean Stop and Start (same object, or a new Store on the same datastore) — and
+    after Sync — the Store reports the same Head, Tail, Height and the same result for every
+    GetByHeight, Get, Has, HasAt and GetRange as before: everything appended before Stop is there. *)
+Theorem C06_clean_restart : forall c U, chain_hyps c U -> forall b ops o,
+  Forall (op_ok U) ops -> o = ISync \/ o = IRestart \/ o = IReopen ->
+  let s := run c (st0 b) ops in
+  let s' := run c (st0 b) (ops ++ [o]) in
+  snd (mstep c s o) = Ok /\
+  headp s' = headp s /\ tailp s' = tailp s /\ hsh s' = hsh s /\
+  (forall n, get_by_height s' n = get_by_height s n) /\
+  (forall n, inr U n -> get s' (h_id (c n)) = get s (h_id (c n)) /\ has s' (h_id (c n)) = has s (h_id (c n))) /\
+  (forall n, has_at s' n = has_at s n) /\
+  (forall from to, get_range s' from to = get_range s from to).
+Proof. exact @hist_clean_restart. Qed.
+
+(** The datastore invariant after EVERY write-log entry: stored headers are chain headers under
+    their own hash and indexed by their height; index entries and pointer keys are well-formed;
+    and whenever both pointer keys resolve to stored headers, Tail <= Head and every height
+    between them is stored — the persisted pointers never claim more than the datastore holds. *)
+Theorem C06_disk_invariant_at_every_write : forall c U, chain_hyps c U -> forall b ops k,
+  Forall (op_ok U) ops ->
+  let s := run c (st0 b) ops in
+  (k <= length (wlog s))%nat ->
+  let img := image b (wlog s) k in
+  (forall id h, d_hdr img !! id = Some h ->
+     exists n, inr U n /\ h = c n /\ id = h_id (c n) /\ d_idx img !! n = Some id) /\
+  (forall n id, d_idx img !! n = Some id -> inr U n /\ id = h_id (c n)) /\
+  (forall id, d_head img = Some id -> exists n, inr U n /\ id = h_id (c n)) /\
+  (forall id, d_tail img = Some id -> exists n, inr U n /\ id = h_id (c n)) /\
+  (forall T H, d_tail img = Some (h_id (c T)) -> d_head img = Some (h_id (c H)) -> inr U T -> inr U H ->
+     d_hdr img !! h_id (c T) = Some (c T) -> d_hdr img !! h_id (c H) = Some (c H) ->
+     T <= H /\ forall n, T <= n <= H -> d_hdr img !! h_id (c n) = Some (c n)).
+Proof. exact @hist_image_facts. Qed.
+
+(** Head and Tail of the reopened Store, when present, are the chain headers the persisted
+    pointer keys name, stored in the image, and retrievable by height: no dangling pointers *)
+Theorem C06_reopened_pointers_resolve : forall c U, chain_hyps c U -> forall b ops k,
+  Forall (op_ok U) ops ->
+  let s := run c (st0 b) ops in
+  (k <= length (wlog s))%nat ->
+  let img := image b (wlog s) k in
+  let r := reopen b (wlog s) k in
+  (forall h, headp r = Some h -> exists n, inr U n /\ h = c n /\ d_head img = Some (h_id (c n)) /\
+                                  d_hdr img !! h_id (c n) = Some (c n) /\ get_by_height r n = Found (c n)) /\
+  (forall h, tailp r = Some h -> exists n, inr U n /\ h = c n /\ d_tail img = Some (h_id (c n)) /\
+                                  d_hdr img !! h_id (c n) = Some (c n) /\ get_by_height r n = Found (c n)).
+Proof. exact @hist_reopen_pointers_resolve. Qed.
+
+(** when both are present, Tail <= Head and every height between them is retrievable by height and hash *)
+Theorem C06_reopened_gap_free : forall c U, chain_hyps c U -> forall b ops k,
+  Forall (op_ok U) ops ->
+  let s := run c (st0 b) ops in
+  (k <= length (wlog s))%nat ->
+  let r := reopen b (wlog s) k in
+  forall hd tl, headp r = Some hd -> tailp r = Some tl ->
+  h_height tl <= h_height hd /\
+  forall n, h_height tl <= n <= h_height hd ->
+  get_by_height r n = Found (c n) /\ get r (h_id (c n)) = Found (c n).
+Proof. exact @hist_reopen_gap_free. Qed.
+
+(** every header of a committed batch that was not later deleted (= indexed and stored in the
+    image) is retrievable from the reopened Store by height and by hash *)
+Theorem C06_committed_headers_retrievable : forall c U, chain_hyps c U -> forall b ops k n id h,
+  Forall (op_ok U) ops ->
+  let s := run c (st0 b) ops in
+  (k <= length (wlog s))%nat ->
+  let img := image b (wlog s) k in
+  let r := reopen b (wlog s) k in
+  d_idx img !! n = Some id -> d_hdr img !! id = Some h ->
+  h = c n /\ get_by_height r n = Found (c n) /\ get r (h_id (c n)) = Found (c n).
+Proof. exact @hist_reopen_finds_committed. Qed.
+
+(** appending the continuation of the chain — the [len] consecutive heights above the reopened
+    Head (else Tail, else 0: [cont_base]), reaching above everything stored in the image —
+    makes Head advance to the new tip *)
+Theorem C06_continuation_reaches_tip : forall c U, chain_hyps c U -> forall b ops k len,
+  Forall (op_ok U) ops ->
+  let s := run c (st0 b) ops in
+  (k <= length (wlog s))%nat ->
+  let img := image b (wlog s) k in
+  let r := reopen b (wlog s) k in
+  let base := cont_base r in
+  let last := base + N.of_nat len in
+  len <> 0%nat -> last <= U ->
+  (forall m, last < m -> inr U m -> d_hdr img !! h_id (c m) <> Some (c m)) ->
+  headp (fst (append r (map c (seqN (base + 1) len)))) = Some (c last).
+Proof. exact @hist_reopen_continuation. Qed.
+
+(** non-vacuity: the history of the repaired finding; every crash point is listed with the
+    reopened (Head, Tail) and what heights 1..8 answer *)
+Example C06_crash_points :
+  let c := simple_chain in
+  let s := run c (st0 3) [IAppend [1; 2; 3]; IAppend [6; 7; 8]; IAppend [4]; IAppend [5]; IDelete 1 2 0 []] in
+  map (fun k => let r := reopen 3 (wlog s) k in
+                (option_map h_height (headp r), option_map h_height (tailp r),
+                 map (fun n => match get_by_height r n with Found _ => true | _ => false end) [1; 2; 3; 4; 5; 6; 7; 8]))
+      (seq 0 (S (length (wlog s)))) =
+  [ (None, None, [false; false; false; false; false; false; false; false]);
+    (Some 3, Some 1, [true; true; true; false; false; false; false; false]);
+    (Some 3, Some 1, [true; true; true; false; false; true; true; true]);
+    (Some 8, Some 1, [true; true; true; true; true; true; true; true]);
+    (Some 8, None, [false; true; true; true; true; true; true; true]);
+    (Some 8, None, [false; true; true; true; true; true; true; true]);
+    (Some 8, Some 2, [false; true; true; true; true; true; true; true]);
+    (Some 8, Some 2, [false; true; true; true; true; true; true; true]) ].
+Proof. vm_compute. reflexivity. Qed.
+
+Print Assumptions C06_clean_restart.
+Print Assumptions C06_disk_invariant_at_every_write.
+Print Assumptions C06_reopened_pointers_resolve.
+Print Assumptions C06_reopened_gap_free.
+Print Assumptions C06_committed_headers_retrievable.
+Print Assumptions C06_continuation_reaches_tip.
